@@ -789,7 +789,10 @@ impl Database {
             Some(watchers_vec) => watchers_vec.clone(),
             _ => Vec::new(),
         };
-        senders.push(sender.clone());
+        // One subscription per connection and key: watching again must not duplicate the notifications
+        if !senders.iter().any(|s| s.same_receiver(sender)) {
+            senders.push(sender.clone());
+        }
         watchers.insert(key.clone(), senders);
         Response::Ok {}
     }
